@@ -353,3 +353,100 @@ fix: 'log($B)'";
     }
   }
 }
+
+/// verification hooks: the real test runner (`run_test_rule_impl` with the non-interactive
+/// reporter) on a project directory, its report captured in memory; the real snapshot generator
+/// and the real snapshot-file reader
+#[cfg(feature = "verif-hooks")]
+pub mod verif_hooks {
+  use super::*;
+  use crate::config::TestConfig;
+  use std::path::Path;
+
+  #[derive(Clone, Default)]
+  pub struct SharedBuf(pub Arc<Mutex<Vec<u8>>>);
+  impl Write for SharedBuf {
+    fn write(&mut self, buf: &[u8]) -> std::io::Result<usize> {
+      self.0.lock().unwrap().extend_from_slice(buf);
+      Ok(buf.len())
+    }
+    fn flush(&mut self) -> std::io::Result<()> {
+      Ok(())
+    }
+  }
+
+  fn project(project_dir: &Path, rule_dir: &str, test_dir: &str) -> ProjectConfig {
+    ProjectConfig {
+      project_dir: project_dir.to_path_buf(),
+      rule_dirs: vec![PathBuf::from(rule_dir)],
+      test_configs: Some(vec![TestConfig {
+        test_dir: PathBuf::from(test_dir),
+        snapshot_dir: None,
+      }]),
+      util_dirs: None,
+    }
+  }
+
+  /// `sg test [--skip-snapshot-tests] [-U] [--filter RE]` on the project: (Ok / error text, report)
+  pub fn run_test(
+    project_dir: &Path,
+    rule_dir: &str,
+    test_dir: &str,
+    skip_snapshot_tests: bool,
+    update_all: bool,
+    filter: Option<&str>,
+  ) -> (Result<(), String>, String) {
+    let buf = SharedBuf::default();
+    let arg = TestArg {
+      test_dir: None,
+      snapshot_dir: None,
+      skip_snapshot_tests,
+      update_all,
+      interactive: false,
+      filter: filter.map(|f| Regex::new(f).expect("filter regex")),
+    };
+    let reporter = DefaultReporter {
+      output: buf.clone(),
+      update_all,
+    };
+    let ret = run_test_rule_impl(arg, reporter, project(project_dir, rule_dir, test_dir));
+    let out = String::from_utf8_lossy(&buf.0.lock().unwrap()).into_owned();
+    (ret.map_err(|e| format!("{e}")), out)
+  }
+
+  /// `TestSnapshot::generate` of the rule `id` on each source: `None` = no such rule,
+  /// `Some(Err)` = the fix failed, `Some(Ok(None))` = no match, else the snapshot as JSON
+  pub fn generate(
+    project_dir: &Path,
+    rule_dir: &str,
+    queries: &[(String, String)],
+  ) -> Vec<Option<Result<Option<serde_json::Value>, String>>> {
+    let rules = project(project_dir, rule_dir, "tests")
+      .find_rules(Default::default())
+      .expect("rules")
+      .0;
+    queries
+      .iter()
+      .map(|(id, src)| {
+        let rule = rules.get_rule(id)?;
+        Some(
+          snapshot::TestSnapshot::generate(rule, src)
+            .map(|s| s.map(|s| serde_json::to_value(s).expect("json")))
+            .map_err(|e| format!("{e}")),
+        )
+      })
+      .collect()
+  }
+
+  /// a snapshot file read through the real `TestSnapshots` type: (id, entries sorted by source)
+  pub fn parse_snapshots(yaml: &str) -> Result<(String, Vec<(String, serde_json::Value)>), String> {
+    let snaps: TestSnapshots = ast_grep_config::from_str(yaml).map_err(|e| format!("{e}"))?;
+    let mut entries: Vec<_> = snaps
+      .snapshots
+      .into_iter()
+      .map(|(k, v)| (k, serde_json::to_value(v).expect("json")))
+      .collect();
+    entries.sort_by(|a, b| a.0.cmp(&b.0));
+    Ok((snaps.id, entries))
+  }
+}
